@@ -9,7 +9,10 @@ package main
 import (
 	"fmt"
 	"net"
+	"os"
 	"sync"
+	"sync/atomic"
+	"time"
 
 	nt "github.com/mit-pdos/go-nfsd/nfstypes"
 	"github.com/zeldovich/go-rpcgen/rfc1057"
@@ -62,6 +65,9 @@ func sattrOf(op *Op) nt.Sattr3 {
 
 // doOp performs op through api and normalises the reply.
 func doOp(api API, op *Op) *Res {
+	atomic.AddInt64(&rpcsOutstanding, 1)
+	mon.NoteRPC()
+	defer atomic.AddInt64(&rpcsOutstanding, -1)
 	r := &Res{}
 	switch op.K {
 	case OpNull:
@@ -216,11 +222,13 @@ func doOp(api API, op *Op) *Res {
 // RPC transport adapter
 
 type rpcStub struct {
+	srv   *rfc1057.Server
 	mu    sync.Mutex
 	c     *rfc1057.Client
 	mc    *rfc1057.Client
 	conns []net.Conn
 	err   error
+	children []*rpcStub
 }
 
 // newRPCStub serves srv/msrv on an rfc1057.Server over in-process pipes and
@@ -229,21 +237,38 @@ func newRPCStub(srv API, msrv MountAPI) *rpcStub {
 	s := rfc1057.MakeServer()
 	s.RegisterMany(nt.MOUNT_PROGRAM_MOUNT_V3_regs(msrv))
 	s.RegisterMany(nt.NFS_PROGRAM_NFS_V3_regs(srv))
-	st := &rpcStub{}
-	mk := func(prog, vers uint32) *rfc1057.Client {
-		a, b := net.Pipe()
-		st.conns = append(st.conns, a, b)
-		go s.Run(b)
-		return rfc1057.MakeClient(a, prog, vers)
-	}
-	st.c = mk(nt.NFS_PROGRAM, nt.NFS_V3)
-	st.mc = mk(nt.MOUNT_PROGRAM, nt.MOUNT_V3)
+	st := &rpcStub{srv: s}
+	st.c = st.dial(nt.NFS_PROGRAM, nt.NFS_V3)
+	st.mc = st.dial(nt.MOUNT_PROGRAM, nt.MOUNT_V3)
 	return st
+}
+
+func (s *rpcStub) dial(prog, vers uint32) *rfc1057.Client {
+	a, b := net.Pipe()
+	s.mu.Lock()
+	s.conns = append(s.conns, a, b)
+	s.mu.Unlock()
+	go s.srv.Run(b)
+	return rfc1057.MakeClient(a, prog, vers)
+}
+
+// NewConn returns a stub with its own connection to the same server (an
+// rfc1057 client connection carries one call at a time).
+func (s *rpcStub) NewConn() *rpcStub {
+	n := &rpcStub{srv: s.srv}
+	n.c = n.dial(nt.NFS_PROGRAM, nt.NFS_V3)
+	s.mu.Lock()
+	s.children = append(s.children, n)
+	s.mu.Unlock()
+	return n
 }
 
 func (s *rpcStub) Close() {
 	for _, c := range s.conns {
 		c.Close()
+	}
+	for _, n := range s.children {
+		n.Close()
 	}
 }
 
@@ -265,6 +290,11 @@ func (s *rpcStub) Err() error {
 	defer s.mu.Unlock()
 	e := s.err
 	s.err = nil
+	for _, n := range s.children {
+		if ce := n.Err(); ce != nil && e == nil {
+			e = ce
+		}
+	}
 	return e
 }
 
@@ -396,3 +426,31 @@ func (s *rpcStub) NFSPROC3_COMMIT(a nt.COMMIT3args) (r nt.COMMIT3res) {
 // rpcFailed is the status left in a reply when the transport failed (no such
 // NFS status exists); the caller checks rpcStub.Err().
 const rpcFailed nt.Nfsstat3 = 0xFFFFFFF0
+
+var rpcsOutstanding int64
+
+// startWatchdog: a request that is outstanding while not a single disk or
+// hook event happens for 60 s (normal requests take milliseconds and touch the
+// disk constantly) violates the bounded-progress restatement of "every RPC
+// returns"; the process dumps all stacks and exits with status 4 (the parent
+// reports the death with the log tail).
+func startWatchdog() {
+	go func() {
+		last := atomic.LoadUint64(&progressCtr)
+		still := 0
+		for {
+			time.Sleep(5 * time.Second)
+			cur := atomic.LoadUint64(&progressCtr)
+			if atomic.LoadInt64(&rpcsOutstanding) > 0 && cur == last {
+				still++
+			} else {
+				still = 0
+			}
+			last = cur
+			if still >= 12 {
+				fmt.Printf("panic: HANG: a request has been outstanding for 60 s without a single disk or lock event; lock monitor: %s\n%s\n", mustJSON(mon.Stats()), allStacks())
+				os.Exit(4)
+			}
+		}
+	}()
+}
